@@ -1,11 +1,278 @@
-import Ruint.Model.Pow
-import Ruint.Model.Log
-import Ruint.Model.Root
-/-! C13 — placeholder while the correspondence is brought up (theorems follow). -/
-namespace Ruint.C13
-open Ruint.Pow
+import Ruint.Lemmas.Pow
+import Ruint.Lemmas.Log
+import Ruint.Lemmas.Root
 
-theorem overflowing_pow_bits_zero (a e : Nat) : overflowingPow 0 a e = (a, false) := by
-  simp [overflowingPow]
+/-!
+# C13 — powers, integer logarithms and integer roots are exact
+
+Property theorems only (helper lemmas live in `Lemmas/{Pow,Log,Root}.lean`). Every theorem quantifies
+over **all** widths `bits` (including 0, 1, 2, 3 where the constants 2 and 10 do not fit) and all
+operands `< 2^bits`. The model functions (`Ruint.Pow.*`, `Ruint.Log.*`, `Ruint.Root.*`) are the ones
+the correspondence driver executes against the real `Uint` methods (L2 models, DESIGN §3.3a: control
+structure mirrored, body operations by their value-level specs).
+
+libm is not modelled. The float-derived first guess of `log` (`est`) and of `root` (`g`) is a
+**parameter** of the model; the theorems state exactly what they need of it (`Log.estOk`,
+`Root.guessOk`), the harness reads the real guess through `verif_hooks::tap`, and the driver evaluates
+the hypothesis on every case (`pred:false hyp …` when it fails).
+-/
+namespace Ruint.C13
+open Ruint Ruint.Pow Ruint.Log Ruint.Root
+
+/-! ## pow -/
+
+/-- `overflowing_pow` at every non-empty width: value `a^e mod 2^bits`, flag iff `a^e ≥ 2^bits`
+    (for every exponent, however large; `0^0 = 1` because `0^0 = 1` in `ℕ`). -/
+theorem overflowing_pow_spec (bits a e : ℕ) (hb : 0 < bits) (ha : a < 2 ^ bits) :
+    (overflowingPow bits a e).1 = a ^ e % 2 ^ bits
+    ∧ ((overflowingPow bits a e).2 = true ↔ 2 ^ bits ≤ a ^ e) := by
+  rw [overflowingPow_eq bits a e hb ha]
+  simp
+
+/-- `0^0 = 1`, no overflow, for `BITS > 0`. -/
+theorem overflowing_pow_zero_zero (bits : ℕ) (hb : 0 < bits) : overflowingPow bits 0 0 = (1, false) := by
+  have h2 := two_le_two_pow bits hb
+  rw [overflowingPow_eq bits 0 0 hb (by omega)]
+  have h1 : 1 % 2 ^ bits = 1 := Nat.mod_eq_of_lt (by omega)
+  have : ¬ (2 ^ bits ≤ 1) := by omega
+  simp [h1, this]
+
+/-- `BITS = 0`: the only value is `0`, the result is `(0, false)` (as documented). -/
+theorem overflowing_pow_bits_zero (a e : ℕ) (ha : a < 2 ^ 0) : overflowingPow 0 a e = (0, false) := by
+  simp at ha
+  simp [overflowingPow, ha]
+
+/-- `wrapping_pow` = `a^e mod 2^bits` at every width. -/
+theorem wrapping_pow_spec (bits a e : ℕ) (ha : a < 2 ^ bits) :
+    wrappingPow bits a e = a ^ e % 2 ^ bits := wrappingPow_eq bits a e ha
+
+/-- `pow` = `a^e mod 2^bits` at every width. -/
+theorem pow_spec (bits a e : ℕ) (ha : a < 2 ^ bits) : Pow.pow bits a e = a ^ e % 2 ^ bits :=
+  wrappingPow_eq bits a e ha
+
+/-- `checked_pow`: `Some(a^e)` iff `a^e < 2^bits`. -/
+theorem checked_pow_spec (bits a e : ℕ) (hb : 0 < bits) (ha : a < 2 ^ bits) :
+    checkedPow bits a e = if a ^ e < 2 ^ bits then some (a ^ e) else none :=
+  checkedPow_eq bits a e hb ha
+
+/-- `saturating_pow`: `min (a^e) MAX`. -/
+theorem saturating_pow_spec (bits a e : ℕ) (hb : 0 < bits) (ha : a < 2 ^ bits) :
+    saturatingPow bits a e = min (a ^ e) (2 ^ bits - 1) := by
+  unfold saturatingPow
+  rw [overflowingPow_eq bits a e hb ha]
+  by_cases h : 2 ^ bits ≤ a ^ e
+  · have : min (a ^ e) (2 ^ bits - 1) = 2 ^ bits - 1 := by omega
+    simp [h, this]
+  · have h' : a ^ e < 2 ^ bits := by omega
+    have : min (a ^ e) (2 ^ bits - 1) = a ^ e := by omega
+    simp [h, this, Nat.mod_eq_of_lt h']
+
+/-- `BITS = 0`: `checked_pow = Some(0)`, `saturating_pow = 0`. -/
+theorem checked_saturating_pow_bits_zero (a e : ℕ) (ha : a < 2 ^ 0) :
+    checkedPow 0 a e = some 0 ∧ saturatingPow 0 a e = 0 := by
+  simp at ha
+  simp [checkedPow, saturatingPow, overflowingPow, ha]
+
+/-! ## log -/
+
+/-- **`log` is exact** given the hypothesis on the float estimate: for `2 ≤ base`, `0 < x`, if
+    `est < 2^bits` and (`est ≤ ⌊log⌋ + 1` or `base^est` does not overflow) the two correction loops
+    return `L = ⌊log_base x⌋` — no panic, within the fuel (`est + 1` resp. `bits + 1` iterations). -/
+theorem log_spec (bits x base est L : ℕ) (hb : 2 ≤ base) (hbM : base < 2 ^ bits)
+    (hx : 0 < x) (hxM : x < 2 ^ bits) (hL1 : base ^ L ≤ x) (hL2 : x < base ^ (L + 1))
+    (hest : estOk bits base est L = true) :
+    Log.log bits x base est = .ok L := by
+  unfold estOk at hest
+  simp only [Bool.and_eq_true, Bool.or_eq_true, decide_eq_true_eq] at hest
+  obtain ⟨r, h1, h2⟩ := log_total_exact bits x base est hb hbM hx hxM hest.1
+  rw [h1, h2 L hL1 hL2 hest.2]
+
+/-- `log` never panics and always terminates on valid operands, whatever the float estimate is. -/
+theorem log_total (bits x base est : ℕ) (hb : 2 ≤ base) (hbM : base < 2 ^ bits)
+    (hx : 0 < x) (hxM : x < 2 ^ bits) (hest : est < 2 ^ bits) :
+    ∃ r, Log.log bits x base est = .ok r := by
+  obtain ⟨r, h1, _⟩ := log_total_exact bits x base est hb hbM hx hxM hest
+  exact ⟨r, h1⟩
+
+/-- the estimate hypothesis of `log_spec` cannot be dropped: at `U3`, `x = 3`, `base = 3`, an estimate
+    of `3` (two too high, `3^3` overflows) makes the loops return `2` although `⌊log₃ 3⌋ = 1`. -/
+theorem log_estimate_hypothesis_needed :
+    Log.log 3 3 3 3 = .ok 2 ∧ 3 ^ 1 ≤ 3 ∧ 3 < 3 ^ (1 + 1) ∧ estOk 3 3 3 1 = false := by decide
+
+/-- **`checked_log` at every width, for every estimate**: never panics, terminates, and returns `None`
+    exactly for `x = 0 ∨ base < 2` (at `bits < 2` that is always). -/
+theorem checked_log_none_iff (bits x base est : ℕ) (hbM : base < 2 ^ bits) (hxM : x < 2 ^ bits)
+    (hest : est < 2 ^ bits) :
+    ∃ o, checkedLog bits x base est = .ok o ∧ (o = none ↔ (x = 0 ∨ base < 2)) := by
+  unfold checkedLog
+  by_cases h : bitLen base < 2 || x = 0
+  · rw [if_pos h]
+    refine ⟨none, rfl, ?_⟩
+    simp only [Bool.or_eq_true, decide_eq_true_eq, bitLen_lt_two_iff] at h
+    simp only [true_iff]
+    omega
+  · rw [if_neg h]
+    simp only [Bool.or_eq_true, decide_eq_true_eq, bitLen_lt_two_iff, not_or] at h
+    obtain ⟨r, h1⟩ := log_total bits x base est (by omega) hbM (by omega) hxM hest
+    rw [h1]
+    refine ⟨some r, rfl, ?_⟩
+    simp only [reduceCtorEq, false_iff]
+    omega
+
+/-- `checked_log` returns `Some(⌊log⌋)` under the estimate hypothesis. -/
+theorem checked_log_spec (bits x base est L : ℕ) (hb : 2 ≤ base) (hbM : base < 2 ^ bits)
+    (hx : 0 < x) (hxM : x < 2 ^ bits) (hL1 : base ^ L ≤ x) (hL2 : x < base ^ (L + 1))
+    (hest : estOk bits base est L = true) :
+    checkedLog bits x base est = .ok (some L) := by
+  unfold checkedLog
+  have h : ¬ ((bitLen base < 2 || x = 0) = true) := by
+    simp only [Bool.or_eq_true, decide_eq_true_eq, bitLen_lt_two_iff]
+    omega
+  rw [if_neg h, log_spec bits x base est L hb hbM hx hxM hL1 hL2 hest]
+
+/-- **`checked_log2` at every width** (including 0 and 1, where `2` does not fit), for every estimate:
+    `None` for zero, `Some(⌊log2 x⌋)` otherwise. No float is involved (`base == 2` arm). -/
+theorem checked_log2_spec (bits x est : ℕ) (hxM : x < 2 ^ bits) :
+    (x = 0 → checkedLog2 bits x est = .ok none)
+    ∧ ∀ L, 2 ^ L ≤ x → x < 2 ^ (L + 1) → checkedLog2 bits x est = .ok (some L) := by
+  unfold checkedLog2 checkedLogConst
+  by_cases hfit : 2 < 2 ^ bits
+  · rw [if_pos hfit]
+    constructor
+    · intro h0; simp [checkedLog, h0]
+    · intro L h1 h2
+      have hx : 0 < x := lt_of_lt_of_le (by positivity) h1
+      unfold checkedLog
+      have hbl : bitLen 2 = 2 := by decide
+      have h : ¬ ((bitLen 2 < 2 || x = 0) = true) := by
+        simp only [hbl, Bool.or_eq_true, decide_eq_true_eq]; omega
+      rw [if_neg h]
+      unfold Log.log
+      rw [if_neg (by omega), if_neg (by simpa using hfit), if_neg (by omega), if_pos rfl,
+        bitLen_sub_one x L hx h1 h2]
+  · rw [if_neg hfit]
+    constructor
+    · intro h0; simp [h0]
+    · intro L h1 h2
+      have hx : 0 < x := lt_of_lt_of_le (by positivity) h1
+      -- x < 2^bits ≤ 2, so x = 1 and L = 0
+      have hL : L = 0 := by
+        rcases Nat.eq_zero_or_pos L with h | h
+        · exact h
+        · have : 2 ^ 1 ≤ 2 ^ L := Nat.pow_le_pow_right (by omega) h
+          omega
+      rw [if_neg (by omega), hL]
+
+/-- **`log2` at every width**: `⌊log2 x⌋` for non-zero `x` (panics for zero, as documented). -/
+theorem log2_spec (bits x est L : ℕ) (hxM : x < 2 ^ bits) (h1 : 2 ^ L ≤ x) (h2 : x < 2 ^ (L + 1)) :
+    Log.log2 bits x est = .ok L := by
+  have hx : 0 < x := lt_of_lt_of_le (by positivity) h1
+  unfold Log.log2 logConst
+  by_cases hfit : 2 < 2 ^ bits
+  · rw [if_pos hfit]
+    unfold Log.log
+    rw [if_neg (by omega), if_neg (by simpa using hfit), if_neg (by omega), if_pos rfl,
+      bitLen_sub_one x L hx h1 h2]
+  · rw [if_neg hfit, if_neg (by omega)]
+    have hL : L = 0 := by
+      rcases Nat.eq_zero_or_pos L with h | h
+      · exact h
+      · have : 2 ^ 1 ≤ 2 ^ L := Nat.pow_le_pow_right (by omega) h
+        omega
+    rw [hL]
+
+/-- **`checked_log10` at every width** (including `bits < 4`, where `10` does not fit): never panics
+    and is `None` exactly for zero, for every estimate. -/
+theorem checked_log10_none_iff (bits x est : ℕ) (hxM : x < 2 ^ bits) (hest : est < 2 ^ bits) :
+    ∃ o, checkedLog10 bits x est = .ok o ∧ (o = none ↔ x = 0) := by
+  unfold checkedLog10 checkedLogConst
+  by_cases hfit : 10 < 2 ^ bits
+  · rw [if_pos hfit]
+    obtain ⟨o, h1, h2⟩ := checked_log_none_iff bits x 10 est hfit hxM hest
+    exact ⟨o, h1, by rw [h2]; omega⟩
+  · rw [if_neg hfit]
+    by_cases h0 : x = 0
+    · exact ⟨none, by simp [h0], by simp [h0]⟩
+    · exact ⟨some 0, by simp [h0], by simp [h0]⟩
+
+/-- `checked_log10` returns `Some(⌊log10 x⌋)` for non-zero `x` (estimate hypothesis as in `log_spec`;
+    it is not used when `10` does not fit, i.e. `bits < 4`). -/
+theorem checked_log10_spec (bits x est L : ℕ) (hxM : x < 2 ^ bits)
+    (hL1 : 10 ^ L ≤ x) (hL2 : x < 10 ^ (L + 1)) (hest : 10 < 2 ^ bits → estOk bits 10 est L = true) :
+    checkedLog10 bits x est = .ok (some L) := by
+  have hx : 0 < x := lt_of_lt_of_le (by positivity) hL1
+  unfold checkedLog10 checkedLogConst
+  by_cases hfit : 10 < 2 ^ bits
+  · rw [if_pos hfit]
+    exact checked_log_spec bits x 10 est L (by omega) hfit hx hxM hL1 hL2 (hest hfit)
+  · rw [if_neg hfit, if_neg (by omega)]
+    have hL : L = 0 := by
+      rcases Nat.eq_zero_or_pos L with h | h
+      · exact h
+      · have : 10 ^ 1 ≤ 10 ^ L := Nat.pow_le_pow_right (by omega) h
+        omega
+    rw [hL]
+
+/-- `log10` returns `⌊log10 x⌋` for non-zero `x` at every width. -/
+theorem log10_spec (bits x est L : ℕ) (hxM : x < 2 ^ bits)
+    (hL1 : 10 ^ L ≤ x) (hL2 : x < 10 ^ (L + 1)) (hest : 10 < 2 ^ bits → estOk bits 10 est L = true) :
+    Log.log10 bits x est = .ok L := by
+  have hx : 0 < x := lt_of_lt_of_le (by positivity) hL1
+  unfold Log.log10 logConst
+  by_cases hfit : 10 < 2 ^ bits
+  · rw [if_pos hfit]
+    exact log_spec bits x 10 est L (by omega) hfit hx hxM hL1 hL2 (hest hfit)
+  · rw [if_neg hfit, if_neg (by omega)]
+    have hL : L = 0 := by
+      rcases Nat.eq_zero_or_pos L with h | h
+      · exact h
+      · have : 10 ^ 1 ≤ 10 ^ L := Nat.pow_le_pow_right (by omega) h
+        omega
+    rw [hL]
+
+/-! ## root -/
+
+/-- **`root` is exact**: for every degree `k ≥ 1`, `root x k = s` with `s^k ≤ x < (s+1)^k`, at every
+    width. When the Newton loop is reached (`x ≠ 0`, `1 < k < bits`) the first guess `g` must satisfy
+    `guessOk`: `1 ≤ g` and `(k−1)·max(g, 2s) + x / min(g, s)^(k−1) < 2^bits` — the bound on `result`
+    along the run (`[min g s, max g (2s)]`) under which the code's wrapping `+`, `*` and
+    `saturating_shl` provably do not wrap. Termination: the model's fuel `2x + g + 4` suffices. -/
+theorem root_spec (bits x k g s : ℕ) (hk : 1 ≤ k) (hxM : x < 2 ^ bits)
+    (hlo : s ^ k ≤ x) (hhi : x < (s + 1) ^ k)
+    (hg : x ≠ 0 → k < bits → k ≠ 1 → guessOk bits x k g s = true) :
+    root bits x k g = .ok s := root_eq bits x k g s hk hxM hlo hhi hg
+
+/-- **Termination with an explicit iteration bound**: from the first guess `g` the loop stops with the
+    floor root after at most `mu s false g` iterations, where `mu = (s − g) + s + 3` for `g ≤ s`
+    (capped doubling up, one overshoot, stop) and `(g − s) + 2` for `g > s` (strict descent). -/
+theorem root_loop_terminates (bits x j g s f : ℕ) (hbits : 0 < bits) (hj : 1 ≤ j) (hx : 1 ≤ x)
+    (hxM : x < 2 ^ bits) (hlo : s ^ (j + 1) ≤ x) (hhi : x < (s + 1) ^ (j + 1))
+    (hg : guessOk bits x (j + 1) g s = true) (hf : mu s false g ≤ f) :
+    rootLoop bits x j f false g = .ok s := by
+  unfold guessOk at hg
+  simp only [Bool.and_eq_true, decide_eq_true_eq, Nat.add_sub_cancel] at hg
+  have hs1 := root_pos x (j + 1) s hx hhi
+  exact rootLoop_spec bits x j s (min g s) (max g (2 * s)) hbits hj hx hxM hlo hhi
+    (by omega) (by omega) (by omega) hg.2 f false g (by omega) (by omega) (by simp) hf
+
+/-- degree 0 panics (documented). -/
+theorem root_degree_zero (bits x g : ℕ) : root bits x 0 g = .panic := by simp [root]
+
+/-- the guess hypothesis of `root_spec` cannot be dropped: the code's arithmetic wraps. `U8`, `x = 255`,
+    `k = 2`, started from `g = 1`: `division + deg_m1 * result = 255 + 1` wraps to `0`, the next
+    `result` is `0` and `self / 0` panics. -/
+theorem root_guess_hypothesis_needed : root 8 255 2 1 = .panic ∧ guessOk 8 255 2 1 15 = false := by
+  decide
+
+/-! ## non-vacuity: the hypotheses are satisfiable and the model computes -/
+
+example : overflowingPow 64 36 13 = (0x3f4c09ffa4000000, true) := by decide +kernel
+example : overflowingPow 68 36 13 = (0x093f4c09ffa4000000, false) := by decide +kernel
+example : Log.log 64 1000 10 3 = .ok 3 ∧ estOk 64 10 3 3 = true := by decide +kernel
+example : Log.log 64 999 10 3 = .ok 2 ∧ estOk 64 10 3 2 = true := by decide +kernel
+example : checkedLog10 3 5 0 = .ok (some 0) ∧ checkedLog2 1 1 0 = .ok (some 0) ∧ checkedLog 1 1 1 0 = .ok none := by
+  decide
+example : root 64 1000000 3 97 = .ok 100 ∧ guessOk 64 1000000 3 97 100 = true := by decide +kernel
+example : root 64 999999 3 200 = .ok 99 ∧ guessOk 64 999999 3 200 99 = true := by decide +kernel
 
 end Ruint.C13
